@@ -352,7 +352,7 @@ impl C19 {
     }
 }
 
-const UNIFORMITY_ARMS: u64 = 7;
+const UNIFORMITY_ARMS: u64 = 9;
 
 impl World for C19 {
     type Plan = Plan;
@@ -389,12 +389,15 @@ impl World for C19 {
         let arm = (index / ncases) % UNIFORMITY_ARMS;
         // arms 5 and 6: the exact nominal full range (hue 0..360), the usual call, where a fast path keyed on
         // lo == min / hi == max / span == 360 would live
-        let full_range = uniformity && arm >= 5;
+        let full_range = uniformity && (arm == 5 || arm == 6);
+        // arms 7 and 8: a slice of the shape — one component has equal ends (a disc of the cone at one value, a shell at
+        // one saturation), the others a wide range: the remaining coordinates must still be volume-uniform
+        let pinned_slice = uniformity && arm >= 7;
         let dist = if uniformity {
             match arm {
                 0 => Dist::Standard,
                 1 | 5 => Dist::Uniform { inclusive: false },
-                2 | 6 => Dist::Uniform { inclusive: true },
+                2 | 6 | 7 => Dist::Uniform { inclusive: true },
                 3 => Dist::Single { inclusive: false },
                 _ => Dist::Single { inclusive: true },
             }
@@ -422,6 +425,10 @@ impl World for C19 {
             (lo, hi)
         } else {
             let (lo, mut hi) = self.gen_ends(rng, c, inclusive, uniformity);
+            if pinned_slice && !c.kinds[..c.n].iter().any(|k| matches!(k, Kind::HwbW | Kind::HwbB)) && c.n > 1 {
+                let j = rng.below(c.n as u64) as usize;
+                hi[j] = lo[j];
+            }
             if equal_mode > 0 && !c.kinds[..c.n].iter().any(|k| matches!(k, Kind::HwbW | Kind::HwbB)) {
                 let keep = if equal_mode == 2 { Some(rng.below(c.n as u64) as usize) } else { None };
                 for j in 0..c.n {
